@@ -3,7 +3,7 @@ from facts import AnalysisBroken
 from model import (path_value, norm_cond, ret_value_class, dstr, strip, fact_holds, mentions_field, mentions_call, mentions_var,
                    mentions_enum, const_value, walk)
 from props.scan_common import check_build_exit_codes
-from rules import (deep_resolve, absent_from, guarded, calls_to, field_writes, who_may_call, must_pass, dominated_by,
+from rules import (lastname, deep_resolve, absent_from, guarded, calls_to, field_writes, who_may_call, must_pass, dominated_by,
                    full_range, loops_over, every_iteration_passes, basename, error_discipline,
                    origins, reject_if, skip_conditions_exact, is_enum, is_field, atom_cmp,
                    anything, reached_only_via, unwrap_conv)
@@ -239,8 +239,12 @@ def run(ctx):
     full_range(ctx, 'C17.O2', um, 'Edge::outputs_', 'dependents of every output are unmarked')
     # ... and descends through every output that was not visited yet (nothing else prunes the walk:
     # the re-scan that follows is the only mid-build cycle check)
+    # the descent: the recursive call, or - when the walk keeps its own worklist - the push of the output onto a local container
     rec = list(um.calls('Plan::UnmarkDependents'))
-    ctx.check('C17.O2', len(rec) == 1, um.name, 'Unmark:recursion-sites', um.loc, 'one recursive descent')
+    if not rec:
+        rec = [e for e in um.events('call') if lastname(e.get('name') or '') in ('push_back', 'emplace_back', 'push') and
+               isinstance(strip(e.get('recv')), dict) and strip(e['recv']).get('k') == 'var' and strip(e['recv']).get('vk') == 'local']
+    ctx.check('C17.O2', len(rec) == 1, um.name, 'Unmark:recursion-sites', um.loc, 'one descent site (recursive call or worklist push)')
     for e in rec:
         for loop in loops_over(um, 'Edge::outputs_'):
             if e['_b'] in um.reachable_from(loop['body']) | {loop['body']}:
